@@ -176,7 +176,10 @@ def r01_3_4(run):
         else:
             reads_self = f"{var}._grad" in {norm(x) for x in ast.walk(s.value)}
             if reads_self:
-                ok = isinstance(s.value, ast.BinOp) and isinstance(s.value.op, ast.Add)
+                core = s.value
+                while isinstance(core, ast.Call) and isinstance(core.func, ast.Attribute) and core.func.attr in ("astype", "copy"):
+                    core = core.func.value
+                ok = isinstance(core, ast.BinOp) and isinstance(core.op, ast.Add)
                 run.ob("R01.3", loc(fi, s), fi.short, f"accumulating store {norm(s)[:50]}", ok,
                        "X = X + ... form" if ok else "gradient contributions are not summed")
             else:
@@ -209,6 +212,8 @@ def r01_3_4(run):
     stored_names = set()
     for s in stores:
         v = s.value
+        while isinstance(v, ast.Call) and isinstance(v.func, ast.Attribute) and v.func.attr in ("astype", "copy"):
+            v = v.func.value
         if isinstance(v, ast.Name):
             stored_names.add(v.id)
         elif isinstance(v, ast.BinOp):
@@ -295,6 +300,8 @@ def r01_6(run):
         sup = [k for k in calls_named(m.node, "backward") if isinstance(k.func, ast.Attribute)
                and isinstance(k.func.value, ast.Call) and dotted(k.func.value.func) == "super"]
         cfg = build_cfg(run, m)
+        bvm = c.lookup_method("backward_var")
+        bv_returns = bvm is not None and any(isinstance(x, ast.Return) and x.value is not None for x in own_nodes(bvm.node))
         if sup:
             ns = {cfg.stmt_node_containing(k) for k in sup}
             w = cfg.all_paths_hit(ENTRY, ns, exits=(EXIT,))
@@ -304,7 +311,9 @@ def r01_6(run):
                    "graph-cut; the incoming gradient is forwarded unchanged" if (w is None and okargs) else
                    "the generic accumulate/post-process loop can be skipped or is fed a different gradient",
                    path=cfg.path_text(w) if w else None)
-            continue
+            if bv_returns:
+                continue
+            # backward_var never yields a gradient (it raises SkipGradient): the override itself must serve every variable
         # hand-written propagation: every element of self.variables must be served
         call = c.lookup_method("__call__")
         vars_ = opcontract.variables_of(run, c)
